@@ -169,7 +169,21 @@ PROPS["C01"] = dict(
          "RDLENGTH beyond the message): the real exchange must fail cleanly within its deadline and the next exchange succeed",
     assumptions=["Go slices index like the checked primitives of Base/Prelude.v"],
     trusted=CODEC_TRUST,
+    level_note="C01: the decoder is total, panic-free and terminates within a concrete fuel bound for EVERY octet list; accepted "
+               "messages are well-formed; the request handler's response is well-formed and always packs (fallbacks "
+               "unreachable); the stream readers are total (C13). Partial: memory safety of the Go runtime and of the "
+               "unsafe.String uses, and resource exhaustion, are outside the model; that listeners and upstream reply paths "
+               "turn decode errors into drop/close/400/failed exchange is exercised end to end (kinds wedge, upgarbage, C13 "
+               "streamgarbage), not proved.",
 )
+C02_NOTE = ("C02: Len exact and plain round trip for every well-formed message with arbitrary trailing octets; compressed "
+            "round trip for every message whose names have <= 10 labels (compression-table invariant); beyond that the "
+            "statement is refuted (K1, known finding). Partial: agreement of third-party decoders (miekg/dns) is tested "
+            "by the harness, not proved.")
+C09_NOTE = ("C09: totality of Pack on well-formed messages, the size bound and fits-untouched hold with and without "
+            "compression; without compression the exact octets are the canonical encoding of the truncated message; with "
+            "compression the output decodes to the kept records with TC iff omitted (names <= 10 labels); listener limits "
+            "proved on the router model and observed on real sockets (handle kind).")
 PROPS["C02"] = dict(
     kinds=[dict(name="pack", gen=c02_pack_gen, shards=16, respec=pack_respec, respec_kind="packspec", nontrivial=pack_nontrivial, timeout=1500)],
     rule="pack: every generated message the decoder accepts is re-encoded by Msg.Pack (compression on/off, no size limit); "
@@ -177,6 +191,7 @@ PROPS["C02"] = dict(
          "non-trivial = decodable and packed OK",
     assumptions=[],
     trusted=CODEC_TRUST,
+    level_note=C02_NOTE,
 )
 PROPS["C09"] = dict(
     kinds=[dict(name="pack", gen=c09_pack_gen, shards=16, respec=pack_respec, respec_kind="packspec", nontrivial=pack_nontrivial, timeout=1500)],
@@ -185,4 +200,5 @@ PROPS["C09"] = dict(
          "OPT and question retained, untouched when it fits) evaluated on the agreed bytes",
     assumptions=[],
     trusted=CODEC_TRUST,
+    level_note=C09_NOTE,
 )
